@@ -33,6 +33,7 @@ type File struct {
 	Closes int
 	// ReadsAfter counts reads that started after Mark was called.
 	FileName string
+	errDelivered bool
 }
 
 func (f *File) Name() string {
@@ -56,6 +57,9 @@ func (f *File) Read(p []byte) (int, error) {
 		}
 		copy(p, f.Data[f.pos:f.pos+n])
 		f.pos += n
+		if s.Err != nil && s.Err != io.EOF {
+			f.errDelivered = true
+		}
 		return n, s.Err
 	}
 	if f.pos >= len(f.Data) {
@@ -123,3 +127,6 @@ func (r *ChunkReader) Read(p []byte) (int, error) {
 	r.pos += n
 	return n, nil
 }
+
+// ErrDelivered reports whether a scripted non-EOF error has been returned.
+func (f *File) ErrDelivered() bool { return f.errDelivered }
